@@ -6,6 +6,7 @@ import Aiortc.Lemmas.C13.SctpDcep
 import Aiortc.Lemmas.C13.SctpUtf8
 import Aiortc.Lemmas.C13.SctpNeg
 import Aiortc.Lemmas.C13.SctpOpen
+import Aiortc.Lemmas.C13.SctpReset
 /-!
 # C13 — data channel lifecycle: faithful open, forward-only states, exact bufferedAmount
 
@@ -91,7 +92,7 @@ theorem auto_id_parity (e : Ep) (now : Int) (inp : Input) (hI : LifeInv e)
       (∀ s, c.id = some s → c'.id = some s) ∧
       (c.id = none → ∀ s, c'.id = some s → s % 2 = (if e.isServer then 0 else 1)) := by
   obtain ⟨c', hc', hst⟩ := (step_forward e now inp hI).2.2.1 i c hc
-  exact ⟨c', hc', hst.id_keep, hst.id_auto⟩
+  exact ⟨c', hc', hst.id_keep, fun h s hs => (hst.id_auto h s hs).1⟩
 
 /-- the two sides of an association have different roles, so their automatic ids never collide -/
 theorem auto_ids_never_collide (eA eB : Ep) (hrole : eA.isServer ≠ eB.isServer) (a b : Nat)
@@ -99,6 +100,36 @@ theorem auto_ids_never_collide (eA eB : Ep) (hrole : eA.isServer ≠ eB.isServer
   intro hab
   subst hab
   cases hA : eA.isServer <;> cases hB : eB.isServer <;> simp_all
+
+/-- **Automatically chosen ids stay below 65536.** Whatever the step: an id that gets assigned to an existing channel
+object is at most 65535 (a channel that cannot get one is closed instead, fix "close a data channel that cannot get
+a stream id"). -/
+theorem auto_id_in_range (e : Ep) (now : Int) (inp : Input) (hI : LifeInv e)
+    (i : Nat) (c : Chan) (hc : e.chans[i]? = some c) :
+    ∃ c', (step e now inp).1.chans[i]? = some c' ∧
+      (c.id = none → ∀ s, c'.id = some s → s ≤ 65535) := by
+  obtain ⟨c', hc', hst⟩ := (step_forward e now inp hI).2.2.1 i c hc
+  exact ⟨c', hc', fun h s hs => (hst.id_auto h s hs).2⟩
+
+/-- the same for `_data_channel_flush`'s loop alone, with any fuel and any outcome: every id it assigns is
+≤ 65535 and has the role's parity -/
+theorem flushLoop_ids_in_range (fuel : Nat) (s : St) (hI : LifeInv s.1) :
+    WP (flushLoop fuel) (fun _ s' => ∀ (i : Nat) c, s.1.chans[i]? = some c →
+      ∃ c', s'.1.chans[i]? = some c' ∧
+        (c.id = none → ∀ x, c'.id = some x → x ≤ 65535 ∧ x % 2 = (if s.1.isServer then 0 else 1))) s := by
+  refine WP.mono ((fwd_flushLoop fuel).out s hI) ?_
+  intro r s' h i c hc
+  obtain ⟨c', hc', hst⟩ := (h (fun h => h.elim)).2.2.1 i c hc
+  exact ⟨c', hc', fun hn x hx => ⟨(hst.id_auto hn x hx).2, (hst.id_auto hn x hx).1⟩⟩
+
+/-- **A stream reset waits for the queued data.** If `_transmit_reconfig` issues a new request, none of the streams in it
+is the id of a channel that still has an entry in `_data_channel_queue` (so a DATA_CHANNEL_OPEN or user message
+that has not been handed to `_send` yet can never be overtaken by the reset of its stream; fix "send a stream reset
+only after the data queued for the channel has been sent"). -/
+theorem reset_deferred (s : St) : WP transmitReconfig (ResetPost s) s :=
+  transmitReconfig_deferred s
+
+example : ([1, 3].filter fun x => !([some 1, none] : List (Option Nat)).contains (some x)).take 135 = [3] := by decide
 
 /-! ## (c) `readyState` only moves forward; at most one `open` / `close` / `datachannel` event -/
 
